@@ -67,6 +67,7 @@ func genC10(t *rapid.T, st *pbt.Stats) (*lab.Case, c10Scenario) {
 		c.DLQ.WindowSize, c.DLQ.Threshold = 0, 0
 		c.Dests[0].PerPiece[lab.Key(0, at, 0)] = lab.OutNack
 		c.DLQ.PerRecord[lab.Key(0, at, 0)] = []lab.Outcome{lab.OutNack, lab.OutErr}[lab.Uniform(t, "dlqout", 2)]
+		c.DLQ.ErrEOF = lab.Chance(t, "dlqeof", 40)
 		sc.Expect, sc.Cause = "fatal", ""
 	case "proc-error-not-absorbed":
 		c.DLQ.WindowSize, c.DLQ.Threshold = 1, 0
@@ -92,6 +93,7 @@ func genC10(t *rapid.T, st *pbt.Stats) (*lab.Case, c10Scenario) {
 	case "dst-stream-error":
 		c.DLQ.WindowSize, c.DLQ.Threshold = 0, 0
 		c.Dests[0].PerPiece[lab.Key(0, at, 0)] = lab.OutErr
+		c.Dests[0].ErrEOF = lab.Chance(t, "dsteof", 40)
 		k := rapid.IntRange(1, 4).Draw(t, "faulty-instances")
 		c.Dests[0].ErrInstMax = k
 		// Whether the failure recurs after a restart depends on the engine (the default engine
